@@ -1,6 +1,7 @@
 CONSTANTS EP = ${EP}  Prefixes = ${Prefixes}  Types = ${Types}
 CONSTANT Focus = ${Focus}
 CONSTANT Strats = ${Strats}
+CONSTANT FlipFocus = ${FlipFocus}
 CONSTANT DropFocus = ${DropFocus}
 CONSTANT AllowedChoices = {{}}
 INIT Init
